@@ -19,7 +19,8 @@ RULE = ("Hypothesis draws a data-first model - an LP (feasible / infeasible / op
         "declared bound must hold at the returned values within tau = 1e-5*max(1, sum|terms|).  A method that "
         "refuses the model by raising gives no Solution (discard).  Non-trivial = the model is infeasible by "
         "construction or has a constraint/bound that is active at the optimum."
-        '  Also: one third of the cases re-solve the same problem, tighten a bound between two solves (judged against the current bounds), add a list of constraints that cuts off the returned point and solve again, or carry a constraint between parameters only (need <= cap) that is true or false.  Injection stage (one third of the cases): the minimize seam answers the first call with a drawn point, a drawn success flag and a drawn message ("Optimization terminated successfully", "Positive directional derivative for linesearch", "Iteration limit reached", "Inequality constraints incompatible"); later calls (the SLSQP -> trust-constr retry) run the real SciPy; OPTIMAL is still only allowed at a feasible point.  A sixth of the cases are small models whose constraint functions (sqrt / log of variables) leave their domain next to the unconstrained minimiser: OPTIMAL requires the constraint to be defined and satisfied at the returned point.')
+        '  Also: one third of the cases re-solve the same problem, tighten a bound between two solves (judged against the current bounds), add a list of constraints that cuts off the returned point and solve again, or carry a constraint between parameters only (need <= cap) that is true or false.  Injection stage (one third of the cases): the minimize seam answers the first call with a drawn point, a drawn success flag and a drawn message ("Optimization terminated successfully", "Positive directional derivative for linesearch", "Iteration limit reached", "Inequality constraints incompatible"); later calls (the SLSQP -> trust-constr retry) run the real SciPy; OPTIMAL is still only allowed at a feasible point.  A sixth of the cases are small models whose constraint functions (sqrt / log of variables) leave their domain next to the unconstrained minimiser: OPTIMAL requires the constraint to be defined and satisfied at the returned point.'
+        " Also (round 6): an earlier problem that re-uses one of the judged problem's constraint OBJECTS under another column layout of the same width, same first and last variable, is solved first.")
 BUDGET = {"quick": {"workers": 16, "examples": 50}, "thorough": {"workers": 16, "examples": 1500}}
 ASSUMPTIONS = ["only status OPTIMAL is constrained by this property"]
 MANIFEST = {
